@@ -68,6 +68,10 @@ type LaunchedTask struct {
 	KillAsked   int
 	Commands    []CommandSeen
 	SeqLaunch   int64
+
+	// the terminal status update of this task as long as the framework has not acknowledged it: like
+	// the agent's status update manager, the master sends it again (after every re-subscription)
+	pendingTerm *scheduler.Event
 }
 
 type CommandSeen struct {
@@ -491,6 +495,11 @@ func (m *Master) subscribe(w http.ResponseWriter, r *http.Request, call *schedul
 	if write(sub) != nil {
 		return
 	}
+	m.mu.Lock()
+	if m.events == ch {
+		m.retryUnackedLocked()
+	}
+	m.mu.Unlock()
 	tick := time.NewTicker(5 * time.Second)
 	defer tick.Stop()
 	for {
@@ -562,7 +571,12 @@ func (m *Master) process(c *scheduler.Call) {
 		m.message(c.GetMessage())
 	case scheduler.Call_RECONCILE:
 		m.reconcile(c.GetReconcile())
-	case scheduler.Call_ACKNOWLEDGE, scheduler.Call_SUPPRESS, scheduler.Call_TEARDOWN:
+	case scheduler.Call_ACKNOWLEDGE:
+		if t := m.tasks[c.GetAcknowledge().GetTaskID().Value]; t != nil && t.pendingTerm != nil &&
+			string(t.pendingTerm.Update.Status.UUID) == string(c.GetAcknowledge().GetUUID()) {
+			t.pendingTerm = nil
+		}
+	case scheduler.Call_SUPPRESS, scheduler.Call_TEARDOWN:
 	}
 }
 
@@ -805,8 +819,25 @@ func (m *Master) statusLocked(t *LaunchedTask, state, reason, msg string) {
 			}
 		}
 	}
-	delivered := m.send(&scheduler.Event{Type: scheduler.Event_UPDATE, Update: &scheduler.Event_Update{Status: status}})
+	ev := &scheduler.Event{Type: scheduler.Event_UPDATE, Update: &scheduler.Event_Update{Status: status}}
+	if reason == "" && terminalStates[state] && status.UUID != nil {
+		t.pendingTerm = ev
+	}
+	delivered := m.send(ev)
 	m.rec("event", "UPDATE", t.ID, t.AgentID, 0, map[string]interface{}{"state": state, "reason": reason, "delivered": delivered, "env": t.EnvID})
+}
+
+// retryUnackedLocked sends again every terminal status update the framework has not acknowledged
+// (status updates are delivered at least once: the agent retries them until acknowledged).
+func (m *Master) retryUnackedLocked() {
+	for _, id := range m.order {
+		t := m.tasks[id]
+		if t == nil || t.pendingTerm == nil {
+			continue
+		}
+		delivered := m.send(t.pendingTerm)
+		m.rec("event", "UPDATE", t.ID, t.AgentID, 0, map[string]interface{}{"state": t.Mesos, "reason": "", "retry": true, "delivered": delivered, "env": t.EnvID})
+	}
 }
 
 // TaskStatus injects a status update for a task (fault injection).
